@@ -302,7 +302,35 @@ def run(tier, seed, view="C03"):
     except LostAnchor as e:
         print("UNDECIDED property=C03 lost extraction anchor: %s" % e)
         return 2
-    results, dropped, info = core.run_family(fam, fam.programs, log)
+    # C03 and C18 are two views of ONE verifier run. The run is cached under target/ keyed by the sha256 of every input of the run
+    # (copied parser source, extracted items, spec, harnesses, tier, tool flags): `./check C18` right after `./check C03` on identical
+    # sources re-reads that run instead of repeating 6 minutes of CBMC. Any difference in the sources invalidates the cache.
+    import pickle
+    key_src = json.dumps([tier, fam.kani_flags, [p.src for p in fam.programs], sorted(fam.extra_files.items()), fam.common_src,
+                          [[h.name for h in p.harnesses] for p in fam.programs], core.KANI_TOOLCHAIN], sort_keys=True)
+    ckey = hashlib.sha256(key_src.encode()).hexdigest()
+    cpath = os.path.join(core.target_dir("C03"), "run_cache_%s.pkl" % tier)
+    cached = None
+    if os.environ.get("VERIF_NO_CACHE") != "1" and os.path.exists(cpath):
+        try:
+            c = pickle.load(open(cpath, "rb"))
+            if c["key"] == ckey and time.time() - c["at"] < 3 * 3600 and c["view"] != view:
+                cached = c
+        except Exception:
+            cached = None
+    if cached:
+        log("re-using the verifier run of %s (identical sources, sha256 %s) made %.0f s ago by ./check %s" % (
+            time.strftime("%H:%M:%S", time.localtime(cached["at"])), ckey[:12], time.time() - cached["at"], cached["view"]))
+        results, dropped, info = cached["results"], cached["dropped"], cached["info"]
+        core.write_crate(fam, fam.programs)
+        fam.extra_cov["verifier_run_reused_from"] = {"check": cached["view"], "age_s": round(time.time() - cached["at"]), "inputs_sha256": ckey}
+    else:
+        results, dropped, info = core.run_family(fam, fam.programs, log)
+        if results is not None and not dropped:
+            try:
+                pickle.dump({"key": ckey, "at": time.time(), "view": view, "results": results, "dropped": dropped, "info": info}, open(cpath, "wb"))
+            except Exception:
+                pass
     if results is None or dropped:
         print("UNDECIDED property=C03 the harness crate (copied parser + extracted items + spec) does not build: %s" % (
             (info or {}).get("build_failure", "")[-1500:] if results is None else sorted(dropped)))
